@@ -104,4 +104,24 @@ theorem blobCounts_sum (n k : Nat) (hk : 0 < k) : (blobCounts n k).sum = n := by
   have := Nat.div_add_mod n k
   omega
 
+/-! ### `FakeMRIBlobsDataset`: every "file" is readable and has `nz` slices -/
+
+theorem readable_all_some {φ : Type} (names : List φ) (nz : Nat) :
+    readable (names.map fun f => (f, some nz)) = names.map fun f => (f, nz) := by
+  induction names with
+  | nil => rfl
+  | cons x xs ih => simp only [readable] at ih ⊢; simp [ih]
+
+theorem dataOf_none_const {φ : Type} (names : List φ) (nz : Nat) :
+    dataOf none (names.map fun f => (f, nz)) = names.flatMap fun f => (List.range nz).map fun s => (f, s) := by
+  induction names with
+  | nil => rfl
+  | cons x xs ih => simp only [dataOf, sliceList] at ih ⊢; simp [List.flatMap_map]
+
+theorem nodup_map_of_inj {α β : Type} (f : α → β) (hinj : ∀ a b, f a = f b → a = b) (l : List α) (h : l.Nodup) :
+    (l.map f).Nodup := by
+  unfold List.Nodup at *
+  rw [List.pairwise_map]
+  exact h.imp (fun hne e => hne (hinj _ _ e))
+
 end DirectVerif.Dataset
